@@ -821,6 +821,40 @@ pub fn run(run: &mut Run, seed: u64, thorough: bool, replay: Option<&str>, corpu
             }
         }
     }
+    // neighbours that differ in exactly ONE field (character, fg, bg, bold flag, blink flag, both flags, font page, a flag XBin
+    // cannot store), in every run shape of up to four cells and in longer alternations: a comparison that ignores one field
+    // merges exactly these
+    {
+        let bases = [Cell { ch: 0x41, fg: 3, bg: 1, flags: 0, page: 0 }, Cell { ch: 0xDB, fg: 7, bg: 0, flags: 0, page: 0 }, Cell { ch: 0x20, fg: 14, bg: 5, flags: 8, page: 0 }];
+        let pats: [&[usize]; 8] = [&[0, 1], &[0, 0, 1, 1], &[0, 1, 0, 1], &[0, 0, 0, 1], &[1, 0, 0, 0], &[0, 1, 1, 0], &[0, 0, 1, 1, 0, 0, 1, 1, 1, 0], &[1, 1, 1, 1, 1, 0, 0, 0, 0, 0, 1]];
+        for base in bases {
+            let variants = [
+                Cell { ch: base.ch ^ 3, ..base },
+                Cell { fg: base.fg ^ 1, ..base },
+                Cell { fg: base.fg ^ 8, ..base },
+                Cell { bg: base.bg ^ 2, ..base },
+                Cell { bg: base.bg ^ 8, ..base },
+                Cell { flags: base.flags ^ 1, ..base },
+                Cell { flags: base.flags ^ 8, ..base },
+                Cell { flags: base.flags ^ 9, ..base },
+                Cell { page: 1, ..base },
+                Cell { flags: base.flags ^ 0x10, ..base },
+            ];
+            for ice in 0..3u8 {
+                for v in variants {
+                    for pat in pats {
+                        let cells: Vec<Cell> = pat.iter().map(|i| if *i == 0 { base } else { v }).collect();
+                        let w = cells.len();
+                        one(run, &Case { ice, w, opts: 0, cells: cells.clone() }, &mut rng, false);
+                        if w == 4 {
+                            // the same four cells as two rows of two: the pair meets across a row boundary
+                            one(run, &Case { ice, w: 2, opts: 0, cells }, &mut rng, false);
+                        }
+                    }
+                }
+            }
+        }
+    }
     // refused saves: a character above 255, three font pages
     one(run, &Case { ice: 1, w: 3, opts: 0, cells: vec![a, Cell { ch: 0x263A, ..a }, b] }, &mut rng, false);
     one(run, &Case { ice: 1, w: 3, opts: 0, cells: vec![a, a1, Cell { page: 2, ..a }] }, &mut rng, false);
